@@ -150,12 +150,12 @@ theorem c12_idtoken (cfg : Cfg) (now : Clock) (r : TokenReq) (idt acc : Wire)
 theorem mintCode_some {cfg : Cfg} {user : Str} {q : AuthzReq} {t : Int} {c : Wire}
     (hm : mintCode cfg user q t = some c) :
     ∃ p : CodeParams, c = emitCode cfg.dep p t ∧ p.client = q.client ∧ p.user = user ∧ p.nonce = q.nonce ∧
-      p.redirect = q.redirect ∧ p.scope = q.scope := by
+      p.redirect = q.redirect ∧ p.scope = q.scope ∧ p.accessAudience = q.audience := by
   unfold mintCode at hm
   split at hm
   · cases hm
   · injection hm with hm
-    exact ⟨_, hm.symm, rfl, rfl, rfl, rfl, rfl⟩
+    exact ⟨_, hm.symm, rfl, rfl, rfl, rfl, rfl, rfl⟩
 
 theorem emitCode_getters (d : Deployment) (p : CodeParams) (t : Int) (h0 : 0 ≤ t) (h1 : t < 4611686018427387904) :
     gStr (emitCode d p t) .sub = p.client ∧ gStr (emitCode d p t) .username = p.user ∧
@@ -208,6 +208,126 @@ theorem c12_idtoken_end_to_end (cfg : Cfg) (user : Str) (q : AuthzReq) (t : Int)
   · rw [k4, p3]
   · rw [k5]; congr 2
   · rw [← c3, p4]
+
+/-! ### optional authorization parameters: what flows into which token -/
+
+/-- **Released tokens satisfy the property's predicates.** The ID token names this server, the
+authenticated client as its *sole* audience (whatever `access_audience` the code carries), the code's
+user and nonce, and the code's `auth_exp`; the code's `access_audience` reaches only the access
+token, followed by the userinfo URL. -/
+theorem c12_tokens_pred (cfg : Cfg) (now : Clock) (r : TokenReq) (idt acc : Wire)
+    (h : token cfg now r = .ok (idt, acc)) :
+    ∃ id pass, creds r = .ok (id, pass) ∧
+      idTokenOK cfg.dep id (gStr r.code.claims .username) (gStr r.code.claims .nonce)
+        (gInt r.code.claims .authExp) idt = true ∧
+      accessTokenOK cfg.dep (gStr r.code.claims .username) (gStr r.code.claims .scope)
+        (gStrs r.code.claims .accessAudience) (gInt r.code.claims .authExp) acc = true := by
+  obtain ⟨id, pass, hc, k1, k2, k3, k4, k5, _⟩ := c12_idtoken cfg now r idt acc h
+  obtain ⟨_, _, _, _, _, id', pass', cl, hc', _, _, _, _, _, ha⟩ := token_ok h
+  refine ⟨id, pass, hc, ?_, ?_⟩
+  · simp [idTokenOK, k1, k2, k3, k4, k5]
+  · subst ha
+    unfold accessTokenOK
+    by_cases hl : gStrs r.code.claims .accessAudience = []
+    · simp [emitAccess, hl]
+    · have hpos : (gStrs r.code.claims .accessAudience).length > 0 := by
+        cases hh : gStrs r.code.claims .accessAudience with
+        | nil => exact absurd hh hl
+        | cons a as => simp
+      simp [emitAccess, hl, hpos, optStrs]
+
+theorem emitCode_getters2 (d : Deployment) (p : CodeParams) (t : Int) :
+    gStrs (emitCode d p t) .accessAudience = p.accessAudience := by
+  simp only [emitCode, gStrs, optStrs]
+  by_cases h : p.accessAudience = []
+  · simp [h, decStrs]
+  · simp [h, decStrs]
+
+theorem authorize_ok {cfg : Cfg} {user : Str} {f : AuthzForm} {t : Int} {c : Wire}
+    (h : authorize cfg user f t = .ok c) :
+    f.responseType = "code".toList ∧ f.clientID ≠ [] ∧ scopeHasOpenid f.scope = true ∧ f.redirectOK = true ∧
+    (∃ cl, getClient cfg f.clientID = some cl ∧
+      (f.audience ≠ [] → cl.chosenAudiences = true ∧ f.audienceOriginOK = true)) ∧
+    (f.nonce = [] ∨ 6 ≤ f.nonce.length) ∧ mintCode cfg user f.toReq t = some c := by
+  unfold authorize at h
+  split at h
+  · cases h
+  · rename_i h1
+    split at h
+    · cases h
+    · rename_i h2
+      split at h
+      · cases h
+      · rename_i h3
+        split at h
+        · cases h
+        · rename_i cl hcl
+          split at h
+          · cases h
+          · rename_i h4
+            split at h
+            · cases h
+            · split at h
+              · cases h
+              · rename_i h6
+                split at h
+                · cases h
+                · rename_i h7
+                  split at h
+                  · cases h
+                  · rename_i h8
+                    split at h
+                    · cases h
+                    · rename_i c' hm
+                      injection h with h
+                      subst h
+                      refine ⟨by simpa using h1, by simpa using h2, by simpa using h3, by simpa using h4,
+                        ⟨cl, hcl, ?_⟩, ?_, hm⟩
+                      · intro ha
+                        simp only [Bool.and_eq_true, bne_iff_ne, ne_eq, Bool.not_eq_true', not_and,
+                          Bool.not_eq_false] at h6 h7
+                        exact ⟨h6 ha, h7 ha⟩
+                      · simp only [Bool.and_eq_true, decide_eq_true_eq, not_and, Decidable.not_not] at h8
+                        by_cases hn : f.nonce = []
+                        · exact Or.inl hn
+                        · right
+                          have : f.nonce.length ≠ 0 := by
+                            intro e; exact hn (List.length_eq_zero_iff.mp e)
+                          by_cases hlt : f.nonce.length < 6
+                          · exact absurd (h8 hlt) this
+                          · omega
+
+/-- **Authorization request → tokens.** Take any authorization request the handler accepts for the
+logged-in `user` at time `t` — whatever its optional parameters (scope variants, nonce, audience,
+PKCE challenge) — and any later token request on that code that releases tokens. Then the ID token
+is for this issuer, **exactly** `[client_id]`, `user`, that request's nonce and expires 16 h after
+`t`; the access token is a bearer token for `user` with the requested scope whose audience is absent
+when no `audience` was requested and otherwise that audience plus the userinfo URL; an audience was
+accepted only for a client allowed to choose one and only if its origin is allowed; and the token
+request used the authorized redirect URI. -/
+theorem c12_authorize_flow (cfg : Cfg) (user : Str) (f : AuthzForm) (t : Int) (c : Wire)
+    (h0 : 0 ≤ t) (h1 : t < 4611686018427387904)
+    (ha : authorize cfg user f t = .ok c) (now : Clock) (r : TokenReq) (idt acc : Wire)
+    (hr : r.code.claims = c) (h : token cfg now r = .ok (idt, acc)) :
+    idTokenOK cfg.dep f.clientID user f.nonce (t + 16 * 3600) idt = true ∧
+    accessTokenOK cfg.dep user f.scope (if f.audience = [] then [] else [f.audience]) (t + 16 * 3600) acc = true ∧
+    (f.audience ≠ [] → ∃ cl, getClient cfg f.clientID = some cl ∧ cl.chosenAudiences = true ∧
+      f.audienceOriginOK = true) ∧
+    scopeHasOpenid f.scope = true ∧ f.redirectOK = true ∧ r.redirect = f.redirect := by
+  obtain ⟨_, _, a3, a4, ⟨cl, hcl, haud⟩, _, hm⟩ := authorize_ok ha
+  obtain ⟨e1, e2, e3, e4, e5, e6, _⟩ := c12_idtoken_end_to_end cfg user f.toReq t c h0 h1 hm now r idt acc hr h
+  obtain ⟨id, pass, _, _, hacc⟩ := c12_tokens_pred cfg now r idt acc h
+  obtain ⟨p, hp, p1, p2, p3, p4, p5, p6⟩ := mintCode_some hm
+  obtain ⟨g1, g2, g3, g4, g5, _, g7, _⟩ := emitCode_getters cfg.dep p t h0 h1
+  have paud : p.accessAudience = (if f.audience = [] then [] else [f.audience]) := by
+    rw [p6]; rfl
+  refine ⟨?_, ?_, ?_, a3, a4, e6⟩
+  · simp only [AuthzForm.toReq] at e2 e4
+    simp [idTokenOK, e1, e2, e3, e4, e5]
+  · rw [hr, hp, g2, g5, g7, emitCode_getters2, p2, p5, paud] at hacc
+    simpa [AuthzForm.toReq] using hacc
+  · intro hne
+    exact ⟨cl, hcl, haud hne⟩
 
 /-! ### PKCE -/
 
@@ -390,7 +510,7 @@ theorem c12_sites :
 def exDep : Deployment := { issuer := "https://km".toList, trusted := [⟨1, .rsa⟩] }
 /-- toy stand-ins for SHA-256 and for the sealed data of the example code -/
 def exCfg : Cfg :=
-  { dep := exDep, clients := [⟨"web".toList, "s3cret".toList⟩, ⟨"spa".toList, []⟩],
+  { dep := exDep, clients := [⟨"web".toList, "s3cret".toList, false⟩, ⟨"spa".toList, [], true⟩],
     s256 := fun v => 'h' :: v,
     openSealed := fun k d _ => if k = "K".toList ∧ d = "D".toList then some ⟨'h' :: "ver".toList, "S256".toList⟩ else none }
 def exCode (client : Str) (pd : Str) : Artefact :=
@@ -409,5 +529,15 @@ example : isOk (token exCfg ⟨1100, 0⟩ (exReq "spa".toList "D".toList "bad".t
 example : isOk (token exCfg ⟨1100, 0⟩ (exReq "spa".toList "D".toList ('h' :: "ver".toList) none)) = false := by decide
 example : isOk (token exCfg ⟨1100, 0⟩ (exReq "web".toList "D".toList "ver".toList (some ("web".toList, "s3cret".toList)))) = false := by decide
 example : isOk (token exCfg ⟨1301, 0⟩ (exReq "web".toList [] [] (some ("web".toList, "s3cret".toList)))) = false := by decide
+
+def exForm (client audience nonce : Str) : AuthzForm :=
+  { responseType := "code".toList, clientID := client, scope := "email openid".toList, redirect := "https://app/cb".toList,
+    nonce := nonce, audience := audience, challenge := [], challengeMethod := [], redirectOK := true,
+    audienceOriginOK := true, jti := "j".toList, sealedKey := [], sealedData := [] }
+/-- an audience is accepted for the client that may choose one, refused for the other; short nonces are refused -/
+example : isOk (authorize exCfg "alice".toList (exForm "spa".toList "https://api.app".toList "n-123456".toList) 1000) = true := by decide
+example : isOk (authorize exCfg "alice".toList (exForm "web".toList "https://api.app".toList "n-123456".toList) 1000) = false := by decide
+example : isOk (authorize exCfg "alice".toList (exForm "web".toList [] "abc".toList) 1000) = false := by decide
+example : isOk (authorize exCfg "alice".toList (exForm "web".toList [] [] ) 1000) = true := by decide
 
 end KM.Oidc
